@@ -27,7 +27,7 @@ package util
 //@   ensures len(s) == 0 ==> result == ""
 //@   ensures len(s) == 2 ==> result == s[0] + ":" + s[1]
 //@   ensures len(s) == 3 ==> result == s[0] + ":" + s[1] + ":" + s[2]
-//@   prop C15
+//@   prop C15 C20
 //@ loop HashConcat#1
 //@   invariant 0 <= \i && \i <= len(s)
 //@   invariant \i == 0 ==> result == ""
